@@ -764,4 +764,175 @@ theorem groupTextboxes_spec (pageBB : BB) (boxes : List Box) :
   obtain ⟨o, _, ho⟩ := hn
   exact hc.wf n (List.mem_of_getElem? ho)
 
+/-! ### at most one root -/
+
+/-- Every two distinct live nodes still have an entry in the heap. -/
+def PairInv (s : GState) : Prop :=
+  ∀ i j, i < s.nodes.length → j < s.nodes.length → i ∉ s.done → j ∉ s.done → i ≠ j →
+    ∃ e ∈ s.heap, (e.id1 = i ∧ e.id2 = j) ∨ (e.id1 = j ∧ e.id2 = i)
+
+theorem gtbStep_pair {boxes : List Box} {s s' : GState} (hc : CInv boxes s) (hpair : PairInv s)
+    (h : gtbStep le s = some s') : PairInv s' := by
+  have hi := hc.inv
+  unfold gtbStep at h
+  cases hp : popMin le s.heap with
+  | none => rw [hp] at h; simp at h
+  | some pr =>
+    obtain ⟨e, heap⟩ := pr
+    rw [hp] at h
+    simp only at h
+    have hperm := popMin_perm _ _ _ hp
+    have hsplit : ∀ x ∈ s.heap, x = e ∨ x ∈ heap := by
+      intro x hx
+      have := hperm.subset hx
+      simpa using this
+    split at h
+    · -- dead entry
+      rename_i hdead
+      simp only [Option.some.injEq] at h
+      subst h
+      intro i j hi' hj' hdi hdj hij
+      obtain ⟨x, hx, hxij⟩ := hpair i j hi' hj' hdi hdj hij
+      rcases hsplit x hx with rfl | hx'
+      · exfalso
+        have : live s x = true := by
+          simp only [live, Bool.and_eq_true, Bool.not_eq_true', List.contains_eq_mem, decide_eq_false_iff_not]
+          rcases hxij with ⟨h1, h2⟩ | ⟨h1, h2⟩
+          · rw [h1, h2]; exact ⟨hdi, hdj⟩
+          · rw [h1, h2]; exact ⟨hdj, hdi⟩
+        simp [this] at hdead
+      · exact ⟨x, hx', hxij⟩
+    · rename_i hlive
+      split at h
+      · rename_i n1 n2 hn1 hn2
+        split at h
+        · simp only [Option.some.injEq] at h
+          subst h
+          intro i j hi' hj' hdi hdj hij
+          obtain ⟨x, hx, hxij⟩ := hpair i j hi' hj' hdi hdj hij
+          rcases hsplit x hx with rfl | hx'
+          · exact ⟨{ x with skip := true }, by simp, hxij⟩
+          · exact ⟨x, List.mem_append_left _ hx', hxij⟩
+        · simp only [Option.some.injEq] at h
+          subst h
+          have hl1 : e.id1 < s.nodes.length := (List.getElem?_eq_some_iff.mp hn1).1
+          have hl2 : e.id2 < s.nodes.length := (List.getElem?_eq_some_iff.mp hn2).1
+          have hnd1 : (Plane.remove s.plane (nodePObj e.id1 n1)).1.objs.Nodup := by
+            rw [remove_objs]; exact hi.objsNodup.erase _
+          have hiter2 : Plane.iter (Plane.remove (Plane.remove s.plane (nodePObj e.id1 n1)).1 (nodePObj e.id2 n2)).1
+              = ((Plane.iter s.plane).filter (fun x => x.id != e.id1)).filter (fun x => x.id != e.id2) := by
+            rw [iter_remove _ _ hnd1, iter_remove _ _ hi.objsNodup]; rfl
+          -- an old live pair keeps its entry; a pair with the new group gets a fresh one
+          have hnew : ∀ j, j < s.nodes.length → j ∉ s.done → j ≠ e.id1 → j ≠ e.id2 →
+              ∃ x ∈ List.map (fun o => ({ skip := false, d := dist (Node.grp (n1.isVert || n2.isVert) (n1.bb.union n2.bb) n1 n2).bb (pobjBB o), id1 := s.nodes.length, id2 := o.id } : HEntry))
+                (Plane.iter (Plane.remove (Plane.remove s.plane (nodePObj e.id1 n1)).1 (nodePObj e.id2 n2)).1),
+                x.id1 = s.nodes.length ∧ x.id2 = j := by
+            intro j hj hdj h1 h2
+            obtain ⟨o, ho, hoid⟩ := hc.liveIn j hj hdj
+            refine ⟨_, List.mem_map_of_mem (a := o) ?_, rfl, hoid⟩
+            rw [hiter2]
+            simp only [List.mem_filter, bne_iff_ne, ne_eq]
+            exact ⟨⟨ho, by rw [hoid]; exact h1⟩, by rw [hoid]; exact h2⟩
+          intro i j hi' hj' hdi hdj hij
+          simp only [List.length_append, List.length_singleton] at hi' hj'
+          simp only [List.mem_cons, not_or] at hdi hdj
+          by_cases hiN : i = s.nodes.length
+          · have hjN : j < s.nodes.length := by omega
+            obtain ⟨x, hx, hx1, hx2⟩ := hnew j hjN hdj.2.2 hdj.2.1 hdj.1
+            exact ⟨x, List.mem_append_right _ hx, Or.inl ⟨by rw [hx1, hiN], hx2⟩⟩
+          · by_cases hjN : j = s.nodes.length
+            · have hiN' : i < s.nodes.length := by omega
+              obtain ⟨x, hx, hx1, hx2⟩ := hnew i hiN' hdi.2.2 hdi.2.1 hdi.1
+              exact ⟨x, List.mem_append_right _ hx, Or.inr ⟨by rw [hx1, hjN], hx2⟩⟩
+            · obtain ⟨x, hx, hxij⟩ := hpair i j (by omega) (by omega) hdi.2.2 hdj.2.2 hij
+              rcases hsplit x hx with rfl | hx'
+              · exfalso
+                rcases hxij with ⟨h1, _⟩ | ⟨h1, _⟩
+                · exact hdi.2.1 h1.symm
+                · exact hdj.2.1 h1.symm
+              · exact ⟨x, List.mem_append_left _ hx', hxij⟩
+      · rename_i hnone
+        have he : e ∈ s.heap := hperm.symm.subset List.mem_cons_self
+        have := hc.heapLt e he
+        exfalso
+        exact hnone _ _ (List.getElem?_eq_getElem this.1) (List.getElem?_eq_getElem this.2)
+
+theorem gtbLoop_pair {boxes : List Box} : ∀ (fuel : Nat) (s : GState), CInv boxes s → PairInv s →
+    PairInv (gtbLoop le fuel s).1 ∧ ((gtbLoop le fuel s).2 = true → (gtbLoop le fuel s).1.heap = [])
+  | 0, s, _, hp => by
+    refine ⟨by simpa [gtbLoop] using hp, ?_⟩
+    simp only [gtbLoop]
+    intro h
+    exact List.isEmpty_iff.mp h
+  | fuel + 1, s, hc, hp => by
+    simp only [gtbLoop]
+    cases hs : gtbStep le s with
+    | none =>
+      refine ⟨hp, fun _ => ?_⟩
+      unfold gtbStep at hs
+      cases hpm : popMin le s.heap with
+      | none => exact popMin_none.mp hpm
+      | some pr =>
+        rw [hpm] at hs
+        simp only at hs
+        split at hs
+        · simp at hs
+        · split at hs
+          · split at hs <;> simp at hs
+          · simp at hs
+    | some s' => exact gtbLoop_pair fuel s' (gtbStep_cinv hc hs) (gtbStep_pair hc hp hs)
+
+theorem initPairs_complete (bbs : List BB) (i j : Nat) (hij : i < j) (hj : j < bbs.length) :
+    ∃ e ∈ initPairs bbs, e.id1 = i ∧ e.id2 = j := by
+  have hi : i < bbs.length := by omega
+  unfold initPairs
+  refine ⟨⟨false, dist bbs[i] bbs[j], i, j⟩, ?_, rfl, rfl⟩
+  simp only [List.mem_flatMap, List.mem_map, List.mem_filter, decide_eq_true_eq]
+  refine ⟨(bbs[i], i), ?_, (bbs[j], j), ⟨?_, hij⟩, rfl⟩
+  · rw [List.mem_zipIdx_iff_getElem?]; simp [hi]
+  · rw [List.mem_zipIdx_iff_getElem?]; simp [hj]
+
+theorem gtbInit_pair (pageBB : BB) (boxes : List Box) : PairInv (gtbInit pageBB boxes) := by
+  intro i j hi hj _ _ hij
+  simp only [gtbInit, List.length_map] at hi hj
+  rcases Nat.lt_or_gt_of_ne hij with h | h
+  · obtain ⟨e, he, h1, h2⟩ := initPairs_complete (boxes.map (·.bb)) i j h (by simpa using hj)
+    exact ⟨e, he, Or.inl ⟨h1, h2⟩⟩
+  · obtain ⟨e, he, h1, h2⟩ := initPairs_complete (boxes.map (·.bb)) j i h (by simpa using hi)
+    exact ⟨e, he, Or.inr ⟨h1, h2⟩⟩
+
+/-- `group_textboxes` returns at most one root. -/
+theorem groupTextboxes_single_root (pageBB : BB) (boxes : List Box) :
+    (groupTextboxes le pageBB boxes).1.length ≤ 1 := by
+  have hc := gtbLoop_cinv (le := le) (gtbFuel boxes.length) _ (gtbInit_cinv pageBB boxes)
+  have hp := gtbLoop_pair (le := le) (gtbFuel boxes.length) _ (gtbInit_cinv pageBB boxes) (gtbInit_pair pageBB boxes)
+  have hterm := gtbLoop_terminates (le := le) _ _ (gtbInit_inv pageBB boxes) (gtbInit_phi pageBB boxes)
+  have hheap := hp.2 hterm
+  set sf := (gtbLoop le (gtbFuel boxes.length) (gtbInit pageBB boxes)).1 with hsf
+  have hlen : (Plane.iter sf.plane).length ≤ 1 := by
+    by_contra hgt
+    have h2 : 2 ≤ (Plane.iter sf.plane).length := by omega
+    obtain ⟨x, y, rest, hxy⟩ : ∃ x y rest, Plane.iter sf.plane = x :: y :: rest := by
+      match h : Plane.iter sf.plane with
+      | [] => simp [h] at h2
+      | [_] => simp [h] at h2
+      | x :: y :: rest => exact ⟨x, y, rest, rfl⟩
+    have hnd : ((Plane.iter sf.plane).map (·.id)).Nodup :=
+      List.Nodup.sublist (List.Sublist.map _ List.filter_sublist) hc.inv.seqNodup
+    rw [hxy] at hnd
+    simp only [List.map_cons, List.nodup_cons, List.mem_cons, not_or] at hnd
+    have hx : x ∈ Plane.iter sf.plane := by rw [hxy]; simp
+    have hy : y ∈ Plane.iter sf.plane := by rw [hxy]; simp
+    have hxo := (mem_iter hx).2
+    have hyo := (mem_iter hy).2
+    obtain ⟨e, he, _⟩ := hp.1 x.id y.id (hc.inv.objsLt _ hxo) (hc.inv.objsLt _ hyo) (hc.inv.objsLive _ hxo)
+      (hc.inv.objsLive _ hyo) hnd.1.1
+    rw [hheap] at he
+    simp at he
+  have : (groupTextboxes le pageBB boxes).1.length ≤ (Plane.iter sf.plane).length := by
+    simp only [groupTextboxes]
+    exact List.length_filterMap_le _ _
+  omega
+
+
 end PdfVerif.Layout
